@@ -50,3 +50,61 @@ func VerifC13(args []string) {
 		}
 	}
 }
+
+func init() {
+	vfRegister("VerifC13Literal", VerifC13Literal)
+}
+
+// VerifC13Literal: args = [number of characters, form, options]. A string literal of
+// arbitrary characters (anything the lexer accepts: every character except the double
+// quote) is compiled, dumped and recompiled: the text must compile, dump to itself,
+// and denote the same string.
+//
+//	form "eq"      (= s "<chars>")
+//	     "nested"  (and b (= s "<chars>") (> a 1))     literal inside an indented sub-expression
+//	     "list"    (in s ("x" "<chars>"))
+func VerifC13Literal(args []string) {
+	n := 0
+	for _, c := range args[0] {
+		n = n*10 + int(c-'0')
+	}
+	form, opts := args[1], args[2]
+	var chars []rune
+	for i := 0; i < n; i++ {
+		r := vfAlphabetRune(string(rune('0' + i)))
+		vfAssume(r != '"')
+		chars = append(chars, r)
+	}
+	lit := string(chars)
+	var src string
+	switch form {
+	case "nested":
+		src = "(and b (= s \"" + lit + "\") (> a 1))"
+	case "list":
+		src = "(in s (\"x\" \"" + lit + "\"))"
+	default:
+		src = "(= s \"" + lit + "\")"
+	}
+	mk := func() *Config {
+		conf := NewConfig()
+		conf.VariableKeyMap["s"] = 1
+		conf.VariableKeyMap["a"] = 2
+		conf.VariableKeyMap["b"] = 3
+		for i, o := range optimizations {
+			conf.CompileOptions[o] = opts[i] == '1'
+		}
+		return conf
+	}
+	e, err := Compile(mk(), src)
+	vfAssert(err == nil && e != nil, "an expression with a string literal (no double quote inside) compiles")
+	text := Dump(e)
+	e2, err2 := Compile(mk(), text)
+	vfReach("literal-dumped")
+	vfAssert(err2 == nil && e2 != nil, "Dump output with a string literal does not compile")
+	vfAssert(Dump(e2) == text, "dumping the recompiled program does not reproduce the text (string literal)")
+	vals := map[string]Value{"s": lit, "a": int64(5), "b": true}
+	r1, rerr1 := e.Eval(&Ctx{VariableFetcher: MapVarFetcher(vals)})
+	r2, rerr2 := e2.Eval(&Ctx{VariableFetcher: MapVarFetcher(vals)})
+	vfAssert(rerr1 == nil && r1 == true, "harness: the original program recognises its own literal")
+	vfAssert(rerr2 == nil && r2 == true, "the recompiled string literal is not the original string")
+}
